@@ -107,6 +107,14 @@ func c10Setup(prm c10Params) func(c *fw.Ctx, name string) explore.Setup {
 							st.p.Send(peerFrame(k, frame.Frame{Fin: true, Opcode: frame.OpPing, Payload: []byte("pp")}))
 							st.p.Send(peerData(k, frame.OpCont, false, nil))
 							st.p.Send(peerData(k, frame.OpCont, true, fill(0xD3, 5)))
+						case "RP":
+							// header and the first 3 of 9 payload bytes arrive in one delivery; nothing follows
+							f := peerData(k, frame.OpBinary, true, fill(0xD7, 9))
+							st.p.Send(f[:len(f)-6])
+						case "RK":
+							// a Ping whose payload is cut the same way
+							f := peerFrame(k, frame.Frame{Fin: true, Opcode: frame.OpPing, Payload: []byte("pingpayload")})
+							st.p.Send(f[:len(f)-6])
 						case "RE":
 							st.p.Send(peerData(k, frame.OpBinary, false, fill(0xD4, 6)))
 							st.p.Send(peerData(k, frame.OpCont, true, nil))
@@ -172,7 +180,7 @@ func c10Setup(prm c10Params) func(c *fw.Ctx, name string) explore.Setup {
 					cl.startTick = st.tick
 					cl.started = true
 					switch op {
-					case "R1", "R3", "RC", "RE", "R0", "RN":
+					case "R1", "R3", "RC", "RE", "R0", "RN", "RP", "RK":
 						_, _, cl.err = conn.Read(ctx)
 					case "W1", "WL":
 						cl.err = conn.Write(ctx, websocket.MessageBinary, fill(byte(0xA0+i), 10))
@@ -529,7 +537,7 @@ func c10Scenarios(tier string) []scenario {
 	}
 	plain := []connCfg{{Client: false}, {Client: true}}
 	flate := []connCfg{{Client: false, Flate: true}, {Client: true, Flate: true}}
-	build("rw", []string{"R1", "R3", "RE", "R0", "W1", "WM"}, []string{"RN", "WB", "WL"}, plain)
+	build("rw", []string{"R1", "R3", "RE", "R0", "W1", "WM"}, []string{"RN", "RP", "RK", "WB", "WL"}, plain)
 	build("rw", []string{"RC", "W1"}, []string{"RN"}, flate)
 	build("pw", []string{"P1", "W1"}, []string{"PN", "WL"}, plain)
 	for _, k := range plain {
